@@ -27,15 +27,20 @@ def suite(wt):
     env = dict(os.environ, PYTHONPATH=wt)
     env.pop('FORMULAS_VERIF', None)
     os.makedirs(os.path.join(wt, 'test/test_files/tmp'), exist_ok=True)
-    sh('/venv/bin/python -m pytest -q -p no:cacheprovider --timeout=900 -n 6 '
-       '--junitxml=%s test' % xml, cwd=wt, env=env)
+    rc, log = sh('/venv/bin/python -m pytest -q -p no:cacheprovider --timeout=900 -n 6 '
+                 '--junitxml=%s test' % xml, cwd=wt, env=env)
+    import re
+    errs = sorted(set(re.findall(r'\[TEST[^\]]*\][A-Z]+![A-Z]+[0-9]+', log)))
     passed = set()
     for tc in ET.parse(xml).getroot().iter('testcase'):
         if not any(ch.tag in ('failure', 'error', 'skipped') for ch in tc):
             passed.add('%s::%s' % (tc.get('classname'), tc.get('name')))
     base = set(json.load(open('/root/.vp/BASELINE.json'))['stable_pass'])
     return {'passed': len(passed), 'baseline': len(base),
-            'missing_from_baseline': sorted(base - passed)[:10]}
+            'missing_from_baseline': sorted(base - passed)[:10],
+            'test_excel_model_error_cells': errs,
+            'test_excel_model_errors_as_pristine': errs == [
+                '[TEST.XLSX]LOOKUP!AL19', '[TEST.XLSX]LOOKUP!Y20']}
 
 
 def main():
